@@ -2,6 +2,7 @@
 //! combinator and leaves the complete trace in the `World`.
 
 use crate::construct::{build_top, Top};
+use crate::groups::GroupDyn;
 use crate::spec::{Action, Case};
 use crate::val::{res_shape, Val};
 use crate::world::{self, Answer, Injected, NodeId, Oracle, PFlag, PendKind, Runaway, World};
@@ -38,6 +39,9 @@ pub struct Exec {
     polled_once: bool,
     pub spurious_polls: u32,
     pub waker_changes_while_parked: u32,
+    /// a group was mutated (insert/extend/remove/reserve) since the last poll:
+    /// the caller knows it has to poll again
+    pub mutated: bool,
 }
 
 pub fn fresh_flag() -> Arc<PFlag> {
@@ -69,6 +73,10 @@ pub fn innermost_panicked(w: &World) -> Option<NodeId> {
 impl Exec {
     pub fn new(case: &Case) -> Exec {
         let (top_id, top) = build_top(&case.root);
+        Exec::with_top(top_id, top)
+    }
+
+    pub fn with_top(top_id: NodeId, top: Top) -> Exec {
         world::with(|w| w.top = Some(top_id));
         Exec {
             top: Some(top),
@@ -84,6 +92,14 @@ impl Exec {
             polled_once: false,
             spurious_polls: 0,
             waker_changes_while_parked: 0,
+            mutated: false,
+        }
+    }
+
+    pub fn group(&mut self) -> Option<&mut Box<dyn GroupDyn>> {
+        match self.top.as_mut() {
+            Some(Top::G(g)) => Some(g),
+            _ => None,
         }
     }
 
@@ -99,7 +115,7 @@ impl Exec {
         if !self.polled_once {
             return true;
         }
-        if self.last_was_item() {
+        if self.last_was_item() || self.mutated {
             return true;
         }
         self.cur
@@ -126,6 +142,7 @@ impl Exec {
             }
         };
         flag.woken.store(false, Ordering::SeqCst);
+        self.mutated = false;
         self.cur = Some(flag.clone());
         let id = self.top_id;
         world::with(|w| {
@@ -165,7 +182,13 @@ impl Exec {
                 Poll::Ready(Some(v)) => Out::Item(v),
                 Poll::Ready(None) => Out::End,
             },
+            Top::G(g) => match g.poll_next(&mut cx) {
+                Poll::Pending => Out::Pending,
+                Poll::Ready(Some(v)) => Out::Item(v),
+                Poll::Ready(None) => Out::End,
+            },
         }));
+        let is_group = matches!(self.top, Some(Top::G(_)));
         world::with(|w| w.in_top_poll = false);
         match r {
             Ok(Out::Pending) => {
@@ -188,7 +211,8 @@ impl Exec {
             }
             Ok(Out::End) => {
                 world::comb_poll_end(id, Answer::End);
-                self.finished = true;
+                // a group that returned None can be refilled and used again
+                self.finished = !is_group;
             }
             Err(e) => {
                 world::comb_poll_panicked(id);
@@ -210,6 +234,9 @@ impl Exec {
                     });
                 }
             }
+        }
+            if let Some(Top::G(g)) = self.top.as_mut() {
+            g.after_poll();
         }
     }
 
